@@ -282,8 +282,255 @@ pub mod sync {
     pub mod atomic {
         pub use shuttle::sync::atomic::*;
     }
+    /// Channels with std's interface on top of this module's mutex and condition variable, so
+    /// that `recv_timeout` runs on the virtual clock (shuttle's own channel ignores the timeout)
+    /// and a blocked receiver is seen by the deadlock detector like any other waiter.
     pub mod mpsc {
-        pub use shuttle::sync::mpsc::*;
+        pub use std::sync::mpsc::{RecvError, RecvTimeoutError, SendError, TryRecvError};
+        use std::collections::VecDeque;
+        use std::sync::Arc;
+
+        struct Chan<T> {
+            st: super::Mutex<ChanSt<T>>,
+            cv: super::Condvar,
+            /// bounded channels: senders wait here while the buffer is full
+            room: super::Condvar,
+        }
+        struct ChanSt<T> {
+            q: VecDeque<T>,
+            senders: usize,
+            receiver_alive: bool,
+            bound: Option<usize>,
+        }
+
+        pub struct Sender<T> {
+            ch: Arc<Chan<T>>,
+        }
+        pub struct SyncSender<T> {
+            ch: Arc<Chan<T>>,
+        }
+        pub struct Receiver<T> {
+            ch: Arc<Chan<T>>,
+        }
+
+        fn make<T>(bound: Option<usize>) -> Arc<Chan<T>> {
+            Arc::new(Chan { st: super::Mutex::new(ChanSt { q: VecDeque::new(), senders: 1, receiver_alive: true, bound }), cv: super::Condvar::new(), room: super::Condvar::new() })
+        }
+
+        pub fn channel<T>() -> (Sender<T>, Receiver<T>) {
+            let ch = make(None);
+            (Sender { ch: ch.clone() }, Receiver { ch })
+        }
+
+        pub fn sync_channel<T>(bound: usize) -> (SyncSender<T>, Receiver<T>) {
+            // (a rendezvous channel is approximated by a buffer of one)
+            let ch = make(Some(bound.max(1)));
+            (SyncSender { ch: ch.clone() }, Receiver { ch })
+        }
+
+        fn lock<T>(ch: &Chan<T>) -> super::MutexGuard<'_, ChanSt<T>> {
+            ch.st.lock().unwrap_or_else(|e| e.into_inner())
+        }
+
+        fn send_impl<T>(ch: &Chan<T>, t: T) -> Result<(), SendError<T>> {
+            let mut st = lock(ch);
+            loop {
+                if !st.receiver_alive {
+                    return Err(SendError(t));
+                }
+                match st.bound {
+                    Some(b) if st.q.len() >= b => st = ch.room.wait(st).unwrap_or_else(|e| e.into_inner()),
+                    _ => break,
+                }
+            }
+            st.q.push_back(t);
+            drop(st);
+            ch.cv.notify_one();
+            Ok(())
+        }
+
+        fn sender_gone<T>(ch: &Chan<T>) {
+            let mut st = lock(ch);
+            st.senders -= 1;
+            let last = st.senders == 0;
+            drop(st);
+            if last {
+                ch.cv.notify_all();
+            }
+        }
+
+        impl<T> Sender<T> {
+            pub fn send(&self, t: T) -> Result<(), SendError<T>> {
+                send_impl(&self.ch, t)
+            }
+        }
+        impl<T> SyncSender<T> {
+            pub fn send(&self, t: T) -> Result<(), SendError<T>> {
+                send_impl(&self.ch, t)
+            }
+            pub fn try_send(&self, t: T) -> Result<(), std::sync::mpsc::TrySendError<T>> {
+                let mut st = lock(&self.ch);
+                if !st.receiver_alive {
+                    return Err(std::sync::mpsc::TrySendError::Disconnected(t));
+                }
+                if let Some(b) = st.bound {
+                    if st.q.len() >= b {
+                        return Err(std::sync::mpsc::TrySendError::Full(t));
+                    }
+                }
+                st.q.push_back(t);
+                drop(st);
+                self.ch.cv.notify_one();
+                Ok(())
+            }
+        }
+        impl<T> Clone for Sender<T> {
+            fn clone(&self) -> Self {
+                lock(&self.ch).senders += 1;
+                Sender { ch: self.ch.clone() }
+            }
+        }
+        impl<T> Clone for SyncSender<T> {
+            fn clone(&self) -> Self {
+                lock(&self.ch).senders += 1;
+                SyncSender { ch: self.ch.clone() }
+            }
+        }
+        impl<T> Drop for Sender<T> {
+            fn drop(&mut self) {
+                sender_gone(&self.ch);
+            }
+        }
+        impl<T> Drop for SyncSender<T> {
+            fn drop(&mut self) {
+                sender_gone(&self.ch);
+            }
+        }
+        impl<T> Drop for Receiver<T> {
+            fn drop(&mut self) {
+                let mut st = lock(&self.ch);
+                st.receiver_alive = false;
+                let left: VecDeque<T> = std::mem::take(&mut st.q);
+                drop(st);
+                self.ch.room.notify_all();
+                drop(left);
+            }
+        }
+        impl<T> std::fmt::Debug for Sender<T> {
+            fn fmt(&self, f: &mut std::fmt::Formatter<'_>) -> std::fmt::Result {
+                f.write_str("Sender { .. }")
+            }
+        }
+        impl<T> std::fmt::Debug for SyncSender<T> {
+            fn fmt(&self, f: &mut std::fmt::Formatter<'_>) -> std::fmt::Result {
+                f.write_str("SyncSender { .. }")
+            }
+        }
+        impl<T> std::fmt::Debug for Receiver<T> {
+            fn fmt(&self, f: &mut std::fmt::Formatter<'_>) -> std::fmt::Result {
+                f.write_str("Receiver { .. }")
+            }
+        }
+
+        impl<T> Receiver<T> {
+            fn took(&self) {
+                self.ch.room.notify_one();
+            }
+            pub fn recv(&self) -> Result<T, RecvError> {
+                let mut st = lock(&self.ch);
+                loop {
+                    if let Some(t) = st.q.pop_front() {
+                        drop(st);
+                        self.took();
+                        return Ok(t);
+                    }
+                    if st.senders == 0 {
+                        return Err(RecvError);
+                    }
+                    st = self.ch.cv.wait(st).unwrap_or_else(|e| e.into_inner());
+                }
+            }
+            pub fn try_recv(&self) -> Result<T, TryRecvError> {
+                let mut st = lock(&self.ch);
+                if let Some(t) = st.q.pop_front() {
+                    drop(st);
+                    self.took();
+                    return Ok(t);
+                }
+                if st.senders == 0 {
+                    Err(TryRecvError::Disconnected)
+                } else {
+                    Err(TryRecvError::Empty)
+                }
+            }
+            pub fn recv_timeout(&self, timeout: std::time::Duration) -> Result<T, RecvTimeoutError> {
+                let start = super::super::time::Instant::now();
+                let mut st = lock(&self.ch);
+                loop {
+                    if let Some(t) = st.q.pop_front() {
+                        drop(st);
+                        self.took();
+                        return Ok(t);
+                    }
+                    if st.senders == 0 {
+                        return Err(RecvTimeoutError::Disconnected);
+                    }
+                    let spent = start.elapsed();
+                    if spent >= timeout {
+                        return Err(RecvTimeoutError::Timeout);
+                    }
+                    let (g, _) = self.ch.cv.wait_timeout(st, timeout - spent).unwrap_or_else(|e| e.into_inner());
+                    st = g;
+                }
+            }
+            pub fn iter(&self) -> Iter<'_, T> {
+                Iter { rx: self }
+            }
+            pub fn try_iter(&self) -> TryIter<'_, T> {
+                TryIter { rx: self }
+            }
+        }
+        pub struct Iter<'a, T> {
+            rx: &'a Receiver<T>,
+        }
+        impl<'a, T> Iterator for Iter<'a, T> {
+            type Item = T;
+            fn next(&mut self) -> Option<T> {
+                self.rx.recv().ok()
+            }
+        }
+        pub struct TryIter<'a, T> {
+            rx: &'a Receiver<T>,
+        }
+        impl<'a, T> Iterator for TryIter<'a, T> {
+            type Item = T;
+            fn next(&mut self) -> Option<T> {
+                self.rx.try_recv().ok()
+            }
+        }
+        pub struct IntoIter<T> {
+            rx: Receiver<T>,
+        }
+        impl<T> Iterator for IntoIter<T> {
+            type Item = T;
+            fn next(&mut self) -> Option<T> {
+                self.rx.recv().ok()
+            }
+        }
+        impl<T> IntoIterator for Receiver<T> {
+            type Item = T;
+            type IntoIter = IntoIter<T>;
+            fn into_iter(self) -> IntoIter<T> {
+                IntoIter { rx: self }
+            }
+        }
+        impl<'a, T> IntoIterator for &'a Receiver<T> {
+            type Item = T;
+            type IntoIter = Iter<'a, T>;
+            fn into_iter(self) -> Iter<'a, T> {
+                self.iter()
+            }
+        }
     }
 
     pub struct Mutex<T: ?Sized> {
